@@ -25,6 +25,7 @@ func GenNet(r *hx.Rand, thorough bool) *Script {
 	}
 	pDeliver := r.Range(50, 100) // percent: immediate delivery of a fresh block to a node
 	pByzCom := r.Range(0, 100)
+	constScore := r.Chance(1, 2) // every block scores n: ties are decided by chain length (fewer equal-quality switches)
 	next := 1
 	var made []int                       // names of all blocks made so far (besides genesis)
 	pending := map[int][]int{}           // node -> block names not yet delivered
@@ -41,7 +42,11 @@ func GenNet(r *hx.Rand, thorough bool) *Script {
 		name := next
 		next++
 		if v < honest {
-			sc.Ops = append(sc.Ops, Op{Kind: "propose", Node: v, Name: name, Score: uint64(r.Range(1, n)), Salt: uint64(r.Intn(3))})
+			score := uint64(r.Range(1, n))
+			if constScore {
+				score = uint64(n)
+			}
+			sc.Ops = append(sc.Ops, Op{Kind: "propose", Node: v, Name: name, Score: score, Salt: uint64(r.Intn(3))})
 			have[v][name] = true
 		} else {
 			parent := 0
